@@ -394,9 +394,64 @@ def shadow_pass(ctx):
                 return
 
 
+def below_static_pass(ctx):
+    """dynamic classes below a *static* one (directly, or through another dynamic class; the supertype given at construction
+    or appended later): an instance's eClass is the EClass it was made from, and features added to the dynamic class
+    afterwards are there for old and new instances — dir(), getattr, default"""
+    import sys
+    import types as _t
+    from pyecore import ecore as E
+    for k in range(8 if ctx.quick() else 60):
+        rng = common.sub_rng(ctx.seed, 'C12', 'below-static', k)
+        src = ('from pyecore.ecore import *\n' + ('@EMetaclass\nclass S(object):\n' if k % 2 else 'class S(EObject, metaclass=MetaEClass):\n') +
+               '    x = EAttribute(eType=EString)\n')
+        mod = _t.ModuleType(f'c12_below_{k}')
+        sys.modules[mod.__name__] = mod
+        try:
+            exec(compile(src, mod.__name__, 'exec'), mod.__dict__)
+        finally:
+            sys.modules.pop(mod.__name__, None)
+        how = rng.choice(['constructor', 'append', 'through-dynamic'])
+        if how == 'constructor':
+            D = E.EClass('D', superclass=(mod.S.eClass,))
+        elif how == 'append':
+            D = E.EClass('D')
+            D.eSuperTypes.append(mod.S.eClass)
+        else:
+            M = E.EClass('M', superclass=(mod.S.eClass,))
+            D = E.EClass('D', superclass=(M,))
+        old = D()
+        D.eStructuralFeatures.append(E.EAttribute('late', E.EInt, default_value=3))
+        D.eStructuralFeatures.append(E.EAttribute('many', E.EString, upper=-1))
+        ctx.evaluations += 1
+        ctx.count('below-static/' + how)
+        ctx.nontriv(('below-static', k))
+        for who, o in (('an instance created before the edit', old), ('an instance created after it', D())):
+            problem = None
+            try:
+                if o.eClass is not D:
+                    problem = f'its eClass is {o.eClass!r}, not the class it was made from'
+                elif 'late' not in dir(o) or 'x' not in dir(o):
+                    problem = f'dir() lists {sorted(n for n in dir(o) if not n.startswith("_"))[:8]}'
+                elif o.late != 3 or list(o.many) != [] or o.x is not None:
+                    problem = f'late reads {o.late!r}, many {list(o.many)!r}'
+                else:
+                    o.late = 5
+                    o.many.append('v')
+                    if o.late != 5 or not o.eIsSet('late'):
+                        problem = 'a value written to the late feature is not kept'
+            except Exception as e:
+                problem = f'{type(e).__name__}: {e}'
+            if problem:
+                ctx.violate({'clause': 'below-static'}, f'dynamic class D below a static class ({how}), two features added afterwards: {who}: {problem}',
+                            {'below_static': k, 'how': how})
+                return
+
+
 def run(ctx):
     common.use_repo()
     construction_pass(ctx)
+    below_static_pass(ctx)
     shadow_pass(ctx)
     n = 800 if ctx.quick() else 6000
     ned = 14 if ctx.quick() else 20
